@@ -544,6 +544,9 @@ def run(cx, rep):
     rep.rule("C01.19", "two types that differ in the optionality of a member never share a hoisted validator")
     from rules.c08 import hoist_key_optionality_rule
     hoist_key_optionality_rule(cx, rep, "C01.19")
+    # ---------------------------------------------------------------- C01.20 (= C05.13)
+    from rules.c05 import engine_decides_rule
+    engine_decides_rule(cx.rs, rep, "C01.20")
     # ---------------------------------------------------------------- C01.18 (= C07.11)
     rep.rule("C01.18", "the rest element of a list answers for every index from the prefix length on (boundary of the prefix walk)")
     prefix_boundary_rule(cx, rep, "C01.18")
